@@ -193,3 +193,13 @@ package scheduler
 //@   at[update] call objects.Queue.ApplyConf#1: assert arg0 == queue && queue != nil
 //@   at[inherit] call objects.Queue.MergeParentProperties#1: assert arg0 == queue
 //@   at[recurse] call scheduler.PartitionContext.updateQueues#1: assert arg2 == queue && queue != nil
+
+// a rejected reload changes nothing observable: nothing is installed before the new configuration was validated
+//@ spec abstract cfgvalidated(c *ClusterContext) bool
+//@ func (cc *ClusterContext) processRMConfigUpdateEvent(event *rmevent.RMConfigUpdateEvent)
+//@   props C16
+//@   sweep
+//@   mode nopanic=off
+//@   at[validated] call configs.LoadSchedulerConfigFromByteArray#1 after: assume ret1 == nil ==> cfgvalidated(cc)
+//@   at[aftervalidation] call configs.SetConfigMap#1: assert cfgvalidated(cc)
+//@   at[applyvalidated] call scheduler.ClusterContext.updateSchedulerConfig#1: assert cfgvalidated(cc) && arg1 == conf
